@@ -30,7 +30,7 @@ ASSUMPTIONS = ["pool meshes are built from data owned by the case (fresh arrays 
 
 def cases(seed, tier):
     rng = random.Random(seed * 22695477 + 6)
-    n = 320 if tier == "quick" else 7000
+    n = 320 if tier == "quick" else 40000
     return [{"gen": "history", "seed": rng.randrange(2 ** 31), "steps": rng.randint(4, 8 if tier == "quick" else 14)} for _ in range(n)]
 
 
